@@ -35,6 +35,16 @@ def current_tid():
     return getattr(_TL, "tid", None)
 
 
+class atomic:
+    """with sched.atomic(): the calling managed thread runs without yielding (harness-side bookkeeping)."""
+
+    def __enter__(self):
+        _TL.atomic = getattr(_TL, "atomic", 0) + 1
+
+    def __exit__(self, *a):
+        _TL.atomic -= 1
+
+
 class SchedRLock:
     """Reentrant lock that cooperates with the scheduler (never blocks an OS thread)."""
 
@@ -87,6 +97,9 @@ class Observer:
     def wants_return(self, code):
         return False
 
+    def after_step(self, tid):
+        """Called by the controller after thread `tid` ran one step (no managed thread is running)."""
+
 
 class Policy:
     """Default: run the current thread while it is runnable, else the lowest runnable id; `pre` maps
@@ -120,35 +133,89 @@ class RandomPolicy(Policy):
 
 
 class Sched:
-    def __init__(self, fns, policy, observer=None, max_steps=400000):
+    """Baton-passing scheduler: the running thread itself takes the scheduling decision at each yield
+    point and only hands over (semaphores) when the policy picks another thread."""
+
+    def __init__(self, fns, policy, observer=None, max_steps=400000, watchdog=60):
         self.fns = fns
         self.policy = policy
         self.obs = observer or Observer()
         self.max_steps = max_steps
+        self.watchdog = watchdog
         n = len(fns)
         self.go = [threading.Semaphore(0) for _ in range(n)]
-        self.back = threading.Semaphore(0)
+        self.finished = threading.Event()
         self.state = ["ready"] * n
         self.waiting = [None] * n
         self.where = [None] * n           # (function name, line) where each thread is parked
         self.results = [None] * n
         self.choices = []
-        self.locs = []                    # location of the chosen thread at each step
+        self.locs = []                    # location of the chosen thread at each decision
+        self.step = 0
         self.abort = False
         self.deadlock = False
         self.overrun = False
+        self.hang = None
+
+    # ---- decisions (always executed by the thread holding the baton, or by main at start)
+    def _runnable(self):
+        out = []
+        for i, st in enumerate(self.state):
+            if st != "ready":
+                continue
+            lk = self.waiting[i]
+            if lk is not None and lk.owner is not None and lk.owner != ("t", i):
+                continue
+            out.append(i)
+        return out
+
+    def _stop(self):
+        self.abort = True
+        for i, st in enumerate(self.state):
+            if st != "done":
+                self.go[i].release()
+        self.finished.set()
+
+    def _pick(self, current):
+        """Returns the thread to run next, or None when the execution is over / stuck."""
+        runnable = self._runnable()
+        if not runnable:
+            if not all(st == "done" for st in self.state):
+                self.deadlock = True
+            return None
+        if self.step >= self.max_steps:
+            self.overrun = True
+            return None
+        nxt = self.policy.choose(self.step, current, runnable)
+        self.choices.append(nxt)
+        self.locs.append(self.where[nxt])
+        self.step += 1
+        return nxt
+
+    def _handoff(self, tid):
+        self.obs.after_step(tid)
+        nxt = self._pick(tid)
+        if nxt is None:
+            self._stop()
+            raise SchedAbort()
+        if nxt != tid:
+            self.go[nxt].release()
+            self.go[tid].acquire()
+            if self.abort:
+                raise SchedAbort()
 
     # ---- thread side
     def _yield(self, tid):
-        self.back.release()
-        self.go[tid].acquire()
-        if self.abort:
-            raise SchedAbort()
+        if getattr(_TL, "atomic", 0):
+            return
+        self._handoff(tid)
 
     def _block(self, tid, lock):
         self.waiting[tid] = lock
-        self._yield(tid)
-        self.waiting[tid] = None
+        try:
+            self._handoff(tid)
+        finally:
+            self.waiting[tid] = None
 
     def _local(self, frame, event, arg):
         tid = _TL.tid
@@ -178,6 +245,7 @@ class Sched:
 
     def _main(self, tid):
         _TL.tid = tid
+        _TL.atomic = 0
         self.go[tid].acquire()
         try:
             if self.abort:
@@ -195,19 +263,13 @@ class Sched:
         finally:
             _TL.tid = None
             self.state[tid] = "done"
-            self.back.release()
-
-    # ---- controller side
-    def _runnable(self):
-        out = []
-        for i, st in enumerate(self.state):
-            if st != "ready":
-                continue
-            lk = self.waiting[i]
-            if lk is not None and lk.owner is not None and lk.owner != ("t", i):
-                continue
-            out.append(i)
-        return out
+            if not self.abort:
+                self.obs.after_step(tid)
+                nxt = self._pick(tid)
+                if nxt is None:
+                    self._stop()
+                else:
+                    self.go[nxt].release()
 
     def run(self):
         global _CURRENT
@@ -215,47 +277,40 @@ class Sched:
             raise RuntimeError("nested Sched")
         _CURRENT = self
         threads = [threading.Thread(target=self._main, args=(i,), daemon=True) for i in range(len(self.fns))]
-        for t in threads:
-            t.start()
-        current = 0
-        step = 0
         try:
-            while True:
-                runnable = self._runnable()
-                if not runnable:
-                    if all(s == "done" for s in self.state):
-                        break
-                    self.deadlock = True
-                    break
-                if step >= self.max_steps:
-                    self.overrun = True
-                    break
-                current = self.policy.choose(step, current, runnable)
-                self.choices.append(current)
-                self.locs.append(self.where[current])
-                self.go[current].release()
-                self.back.acquire()
-                step += 1
+            for t in threads:
+                t.start()
+            first = self._pick(0)
+            if first is None:
+                self._stop()
+            else:
+                self.go[first].release()
+            if not self.finished.wait(timeout=self.watchdog):
+                # a managed thread is stuck outside the scheduler's control (real lock, C call): report, never hang
+                import traceback
+                self.hang = "".join("".join(traceback.format_stack(f)[-6:]) for f in sys._current_frames().values())[-3000:]
+                self.deadlock = True
+                self._stop()
+            for t in threads:
+                t.join(timeout=5)
         finally:
-            if any(s != "done" for s in self.state):
-                self.abort = True
-                for i, s in enumerate(self.state):
-                    if s != "done":
-                        self.go[i].release()
-                for i, s in enumerate(self.state):
-                    pass
-                for t in threads:
-                    t.join(timeout=5)
             _CURRENT = None
         return self
 
 
 def patch_locks():
     """Make the library create scheduler-aware locks (harness-side monkeypatch, no repo change)."""
-    import spec_classes.spec_class as sc
-    import spec_classes.utils.mutation as mu
+    import importlib
+    sc = importlib.import_module("spec_classes.spec_class")
+    sc = sys.modules["spec_classes.spec_class"]      # the package attribute of that name is the decorator class
+    mu = sys.modules["spec_classes.utils.mutation"]
     mu.RLock = SchedRLock
     sc.RLock = SchedRLock
+    real = type(threading.RLock())
+    for mod in (mu, sc):                       # module-level lock objects created at import time
+        for k, v in list(vars(mod).items()):
+            if isinstance(v, real):
+                setattr(mod, k, SchedRLock())
     if hasattr(mu, "Lock"):
         mu.Lock = SchedRLock
 
